@@ -2493,6 +2493,7 @@ impl<'a> Visitor<'a, '_, Error> for JSONValidator<'a> {
 
             jv.state.generic_rules = self.state.generic_rules.clone();
             jv.state.eval_generic_rule = Some(ident.ident);
+            jv.state.visited_rules = self.state.visited_rules.clone();
             jv.state.is_group_to_choice_enum = true;
             jv.state.is_multi_type_choice = self.state.is_multi_type_choice;
             jv.visit_rule(rule)?;
@@ -2564,6 +2565,7 @@ impl<'a> Visitor<'a, '_, Error> for JSONValidator<'a> {
 
             jv.state.generic_rules = self.state.generic_rules.clone();
             jv.state.eval_generic_rule = Some(ident.ident);
+            jv.state.visited_rules = self.state.visited_rules.clone();
             jv.state.is_multi_type_choice = self.state.is_multi_type_choice;
             jv.visit_rule(rule)?;
 
@@ -2627,6 +2629,7 @@ impl<'a> Visitor<'a, '_, Error> for JSONValidator<'a> {
 
             jv.state.generic_rules = self.state.generic_rules.clone();
             jv.state.eval_generic_rule = Some(ident.ident);
+            jv.state.visited_rules = self.state.visited_rules.clone();
             jv.state.is_multi_type_choice = self.state.is_multi_type_choice;
             jv.visit_rule(rule)?;
 
@@ -3208,6 +3211,7 @@ impl<'a> Visitor<'a, '_, Error> for JSONValidator<'a> {
 
         jv.state.generic_rules = self.state.generic_rules.clone();
         jv.state.eval_generic_rule = Some(entry.name.ident);
+        jv.state.visited_rules = self.state.visited_rules.clone();
         jv.state.is_multi_type_choice = self.state.is_multi_type_choice;
         jv.visit_rule(rule)?;
 
